@@ -6,6 +6,7 @@ import RosuModel.Model.Cmds.HitObj
 import RosuModel.Model.Cmds.Timing
 import RosuModel.Model.Cmds.Curve
 import RosuModel.Model.Finalize
+import RosuModel.Model.Encode
 namespace Rosu.WholeCmd
 open Rosu
 
@@ -87,6 +88,16 @@ def dec9 (bs : List UInt8) : String :=
   " ## ".intercalate [s!"Beatmap={decBeatmap bs}", s!"General={g}", s!"Editor={e}", s!"Metadata={m}", s!"Difficulty={d}",
     s!"Events={v}", s!"Colors={c}", s!"TimingPoints={t}", s!"HitObjects={h}"]
 
+/-- decode, then encode: the text `Beatmap::encode_to_string` returns. -/
+def encText (bs : List UInt8) : String :=
+  fmtIo (decodeBytes (beatmapDecoder (F := Float) (P := Float32)) bs) fun st =>
+    match st.finish with
+    | .error e => errTag e
+    | .ok m =>
+      match Encode.encode m with
+      | .ok t => "ok " ++ hexStr t
+      | .error e => errTag e
+
 end Rosu.WholeCmd
 
 namespace Rosu
@@ -94,6 +105,7 @@ def dispatchWhole (toks : List String) : Option String :=
   match toks with
   | ["dec", hex] => some (WholeCmd.decBeatmap (unhex hex))
   | ["dec9", hex] => some (WholeCmd.dec9 (unhex hex))
+  | ["enc", hex] => some (WholeCmd.encText (unhex hex))
   | ["decshift", _, a, b] => some (WholeCmd.decBeatmap (unhex a) ++ " ## " ++ WholeCmd.decBeatmap (unhex b))
   | _ => none
 end Rosu
